@@ -474,6 +474,21 @@ def apply_rewrites(src, mask, it, ed, stats, spec_entry):
     return
 
 
+def resolve_placeholders(text, fn_src, path):
+    """`$<name>` placeholders in overlay text are bound by `@@ bind`-style definitions at the top of the text:
+    a line `//bind name = REGEX` binds name to group 1 of the first match of REGEX in the function's own source text,
+    so that invariants follow a renaming of the locals they mention."""
+    binds = dict(re.findall(r'//bind (\w+) = (.*)', text))
+    if not binds: return text
+    out = re.sub(r'[ \t]*//bind \w+ = .*\n', '', text)
+    for name, rx in binds.items():
+        m = re.search(rx.strip(), fn_src)
+        if not m:
+            raise ToolError('lost anchor: %s: no match for local `%s` (%s)' % (path, name, rx.strip()))
+        out = re.sub(r'\$%s\b' % name, m.group(1), out)
+    return out
+
+
 def it_line(src, it):
     return src.count('\n', 0, it['start']) + 1
 
@@ -575,7 +590,9 @@ def assemble(repo, spec, rows=None, canary=None, opts=None):
                 ed.insert(it['body_start'], '\n' + text + indent, prio=0)
             if e and kind == 'verified':
                 loops = find_loops(src, mask, it['body_start'] + 1, it['end'] - 1)
+                fn_src = src[it['kw']:it['end']]
                 for k, t in e['loops'].items():
+                    t = resolve_placeholders(t, fn_src, path)
                     if k >= len(loops):
                         raise ToolError('lost anchor: %s has no loop %d' % (path, k))
                     ed.insert(loops[k]['body_open'], '\n' + t + indent + '    ', prio=0)
@@ -585,6 +602,7 @@ def assemble(repo, spec, rows=None, canary=None, opts=None):
                         if not hm: raise ToolError('cannot name the iterator of loop %d in %s' % (k, path))
                         ed.insert(loops[k]['kw'] + hm.end(), 'ghost_iter: ', prio=0)
                 for w, t in e['proofs'].items():
+                    t = resolve_placeholders(t, fn_src, path)
                     if w == 'body_start':
                         ed.insert(it['body_start'] + 1, '\n' + t, prio=0)
                     elif w == 'body_end':
